@@ -383,6 +383,16 @@ pub(crate) struct LogReader {
     processed (e.g. during database recoveries).
     */
     current_block_offset: usize,
+
+    /**
+    If true, damaged or orphaned fragments in the middle of the file are reported as errors
+    instead of being skipped.
+
+    Skipping is the right thing for a write-ahead log (the affected writes are lost, everything
+    else is recovered). It is not for a manifest: silently skipping one of its records yields an
+    older or empty view of the database.
+    */
+    fail_on_corruption: bool,
 }
 
 /// Public methods
@@ -408,6 +418,7 @@ impl LogReader {
             initial_offset: initial_block_offset,
             current_cursor_position: initial_block_offset,
             current_block_offset: 0,
+            fail_on_corruption: false,
         };
 
         Ok(reader)
@@ -445,6 +456,10 @@ impl LogReader {
                     }
                 }
 
+                if self.fail_on_corruption {
+                    return Err(physical_read_err);
+                }
+
                 // The fragment was damaged. Whatever was collected so far cannot be completed
                 // anymore, so it is dropped together with the damaged fragment.
                 if in_fragmented_record {
@@ -454,6 +469,20 @@ impl LogReader {
                 in_fragmented_record = false;
             } else {
                 let record = maybe_record.unwrap();
+
+                let is_orphaned_fragment = match record.block_type {
+                    BlockType::Full | BlockType::First => in_fragmented_record,
+                    BlockType::Middle | BlockType::Last => !in_fragmented_record,
+                };
+                if is_orphaned_fragment && self.fail_on_corruption {
+                    return Err(LogIOError::Seralization(LogSerializationErrorKind::Other(
+                        format!(
+                            "Found a {:?} fragment that does not fit the fragments before it in \
+                            the log file at {:?}.",
+                            record.block_type, self.log_file_path
+                        ),
+                    )));
+                }
 
                 match record.block_type {
                     BlockType::Full => {
@@ -507,6 +536,11 @@ impl LogReader {
 
 /// Crate-only methods
 impl LogReader {
+    /// Report damaged or orphaned fragments as errors instead of skipping them.
+    pub(crate) fn set_fail_on_corruption(&mut self, fail_on_corruption: bool) {
+        self.fail_on_corruption = fail_on_corruption;
+    }
+
     /**
     Returns true if every byte of the file has been consumed by complete records.
 
